@@ -137,7 +137,7 @@ func rebuild(p *pb.Path, descending bool) *pb.Path {
 var anyRunes = []rune{'a', 'b', 'c', 'A', 'B', 'z', '0', '1', '/', '/', '[', ']', '=', '\\', ' ', '\t', '*', '.', ':', '-', '_',
 	'é', 'ß', '日', '本', '😀', '\u00a0', '\ufffd', '\x00', '\x7f', '"', '\n'}
 
-var smallNames = []string{"a", "b", "c", "/", "a/b", "*", "b/", "/a", "aa", "B"}
+var smallNames = []string{"a", "b", "c", "/", "a/b", "*", "b/", "/a", "aa", "B", "A", "name", "Name"} // incl. names that differ only in case
 
 // anyName: arbitrary valid UTF-8, '/' and the characters that are special in
 // path strings included; empty with probability 1/10.
